@@ -534,6 +534,66 @@ func (p *Prog) nonNilAt(v ssa.Value, b *ssa.BasicBlock) bool {
 
 // nilnessAt: 1 non-nil, -1 nil, 0 unknown.
 func (p *Prog) nilnessAt(v ssa.Value, b *ssa.BasicBlock) int {
+	if r := p.nilnessAtDirect(v, b); r != 0 {
+		return r
+	}
+	// v was merged with later errors into one variable (`if err == nil { …, err = g() }; if err != nil { return }`): where
+	// the merged value φ is known nil, v is nil too, provided φ carries v on every edge on which v may be non-nil
+	vo := p.origin(v)
+	for _, f := range dominatingFacts(b) {
+		f = normFact(f)
+		bo, ok := f.cond.(*ssa.BinOp)
+		if !ok || (bo.Op != token.NEQ && bo.Op != token.EQL) {
+			continue
+		}
+		var other ssa.Value
+		if isNilConst(bo.Y) {
+			other = bo.X
+		} else if isNilConst(bo.X) {
+			other = bo.Y
+		} else {
+			continue
+		}
+		phi, ok := p.origin(other).(*ssa.Phi)
+		if !ok || (bo.Op == token.NEQ) == f.truth {
+			continue // not a φ, or the fact says φ != nil
+		}
+		// φ == nil here
+		carries, okAll := false, true
+		for i, e := range phi.Edges {
+			pr := phi.Block().Preds[i]
+			if p.origin(e) == vo {
+				carries = true // on this edge φ = v, so v == nil if the edge was taken
+				continue
+			}
+			// another value flows in on this edge: v must be known nil there
+			known := p.nilnessAtDirect(v, pr)
+			if c := ifCond(pr); c != nil && known == 0 && pr.Succs[0] != pr.Succs[1] {
+				ef := normFact(condFact{c, pr.Succs[0] == phi.Block()})
+				if eb, ok := ef.cond.(*ssa.BinOp); ok && (eb.Op == token.NEQ || eb.Op == token.EQL) {
+					var o2 ssa.Value
+					if isNilConst(eb.Y) {
+						o2 = eb.X
+					} else if isNilConst(eb.X) {
+						o2 = eb.Y
+					}
+					if o2 != nil && p.origin(o2) == vo && (eb.Op == token.EQL) == ef.truth {
+						known = -1
+					}
+				}
+			}
+			if known != -1 {
+				okAll = false
+			}
+		}
+		if carries && okAll {
+			return -1
+		}
+	}
+	return 0
+}
+
+func (p *Prog) nilnessAtDirect(v ssa.Value, b *ssa.BasicBlock) int {
 	vo := p.origin(v)
 	for _, f := range dominatingFacts(b) {
 		f = normFact(f)
